@@ -27,6 +27,7 @@ func init() {
 			{"C16/constants", "numeric values of status codes, packet types, mask bits, redirect bits", c16Constants},
 			{"C16/redirect", "makeRedirectFlags equals the specification on all 128 switch settings", c16Redirect},
 			{"C16/idle", "idle timeout written = Gateway.IdleTimeout, 0 when negative", c16Idle},
+			{"C16/config-timeout", "Caps.IdleTimeout is the int the configuration library reads from `idletimeout`; Load does not compute it", c16ConfigTimeout},
 			{"C16/policy-wiring", "main: redirect switches, idle timeout and auth switches initialised from the configuration fields of the same meaning", c16PolicyWiring},
 		},
 	})
@@ -71,6 +72,10 @@ func bufferWrites(fn *ssa.Function) (writes []bufWrite, buf ssa.Value, ok bool, 
 		// the append style: b = binary.LittleEndian.AppendUint16(b, v); ...; b = append(b, data...)
 		if ws, end, ok := appendChain(fn); ok {
 			return ws, end, true, ""
+		}
+		// the positional style: p := make([]byte, K+len(data)); PutUintN(p[a:b], v); copy(p[K:], data)
+		if ws, ms, ok := positionalBuilder(fn); ok {
+			return ws, ms, true, ""
 		}
 	}
 	sizes := types.SizesFor("gc", "amd64")
@@ -300,6 +305,38 @@ func c16HeaderAs(c *Ctx, rule string) {
 	lenOK := false
 	var detail string
 	lv := strip(writes[2].val)
+	positional := false
+	if ms, isMake := buf.(*ssa.MakeSlice); isMake {
+		// positional style: the packet is allocated at its final length, so len(packet) is the
+		// allocation length; that length itself must be header + len(data)
+		positional = true
+		if isLenOf(lv, ms) {
+			lv = strip(ms.Len)
+		}
+		if lb, ok := strip(ms.Len).(*ssa.BinOp); !ok || lb.Op != token.ADD {
+			lv = nil
+		} else if lv2, ok := lv.(*ssa.BinOp); ok && lv2 != lb {
+			// the length field is computed separately: it must be the same sum as the allocation
+			sameSum := func(a, b *ssa.BinOp) bool {
+				ka, oka := constInt(a.X)
+				la := a.Y
+				if !oka {
+					ka, oka = constInt(a.Y)
+					la = a.X
+				}
+				kb, okb := constInt(b.X)
+				lb2 := b.Y
+				if !okb {
+					kb, okb = constInt(b.Y)
+					lb2 = b.X
+				}
+				return oka && okb && ka == kb && isLenOf(strip(la), fn.Params[1]) && isLenOf(strip(lb2), fn.Params[1])
+			}
+			if !sameSum(lv2, lb) {
+				lv = nil
+			}
+		}
+	}
 	if bo, ok := lv.(*ssa.BinOp); ok && bo.Op == token.ADD {
 		var l ssa.Value
 		var k int64
@@ -325,6 +362,9 @@ func c16HeaderAs(c *Ctx, rule string) {
 		}
 		if strip(unspill(r.Results[0])) == buf && buf == ssa.Value(writes[3].call) {
 			retOK = true // append style: the returned slice is the end of the chain
+		}
+		if positional && strip(unspill(r.Results[0])) == buf {
+			retOK = true // positional style: every write dominates the return (positionalBuilder)
 		}
 	}
 	c.Check(retOK, rule, "createPacket result", fn.Pos(), "returns the buffer's bytes after all writes", "does not return the assembled buffer")
